@@ -17,7 +17,7 @@ CLAUSE = ('request graphs map Singleton->input, RequestScoped->One, Transient->M
           'Transient->Multiple; in build_call_graph the NodeDeduplicator is created once, outside every loop, nodes that may run once go '
           'through it and transient nodes never do; RequestHandlerPipeline::enforce_invariants counts constructor nodes over all stored call '
           'graphs without merging duplicates; every (re)construction of a middleware call graph receives the caller\'s set of prebuilt '
-          'request-scoped ids — only the exploratory first pass and the application-state graphs use a fresh empty set.')
+          'request-scoped ids — only the exploratory first pass and the application-state graphs use a fresh empty set. The per-node guard sets of build_call_graph are created outside every loop and never emptied.')
 TRUSTED = ['a Compute node appears once in the generated closure per node of the call graph (code generation, C01)']
 
 A = PX + 'analyses::'
